@@ -226,6 +226,8 @@ def peel_box(e):
             if x[0] == "field" and x[2] == 0 and x[3] is None:
                 x = x[1]
             e2 = x
+        if e2[0] == "cast" and isinstance(e2[3], str) and e2[3].lstrip("(").startswith(("&dyn ", "&mut dyn ", "&'_ dyn ", "&'_ mut dyn ")):
+            e2 = e2[2]          # unsizing / auto-trait-dropping coercion of a reference to a trait object: the same object
         if e2 is e:
             return e
         e = e2
